@@ -325,3 +325,52 @@ theorem ptype_fam (hl : ∀ s, (cfg.lower s).length = s.length) (v : Val) (ok : 
   (ptype_inst cfg sfh hl Ty.Fam (fun _ => False) (fam_inferFam cfg sfh) v.w v (Nat.le_refl _) ok tv nt).1
 
 end Pcore.Lat
+
+namespace Pcore.Lat
+variable (cfg : Cfg) (sfh : Bool)
+
+/-- no hash inside the value is keyed by strings only with the empty string among them (the one shape whose detailed type is a
+    `commonType` fold over DETAILED types) -/
+inductive Val.NoEmptyKey : Val → Prop
+  | leaf (v) : (match v with | .array _ | .hash _ | .sensitive _ => False | _ => True) → Val.NoEmptyKey v
+  | sensitive (v) : Val.NoEmptyKey (.sensitive v)
+  | array (vs) : (∀ x ∈ vs, Val.NoEmptyKey x) → Val.NoEmptyKey (.array vs)
+  | hashAny (es : List (Val × Val)) : (es.all (fun e => isStrKey e.1) = false) → Val.NoEmptyKey (.hash es)
+  | hashStr (es : List (Val × Val)) : (∀ e ∈ es, ∃ s, e.1 = .str s ∧ s ≠ "") → (∀ e ∈ es, Val.NoEmptyKey e.2) → Val.NoEmptyKey (.hash es)
+
+theorem dtype_eq_ptype_leaf (v : Val) (h : match v with | .array _ | .hash _ => False | _ => True) :
+    dtype cfg sfh v = ptype cfg sfh v := by
+  cases v <;> first | (exact absurd h id) | (unfold dtype; rfl)
+
+/-- SECOND LAW of C04 for every value that holds no type value and no hash of the empty-string-key shape -/
+theorem dtype_fam (hl : ∀ s, (cfg.lower s).length = s.length) : ∀ (n : Nat) (v : Val), v.w ≤ n → v.OK → Val.TyOK cfg v →
+    Val.AllTyp (fun _ => False) v → Val.NoEmptyKey v → Val.Structy cfg sfh v := by
+  intro n
+  induction n with
+  | zero => intro v h; have : 0 < v.w := by cases v <;> simp [Val.w] <;> omega
+            omega
+  | succ n ih =>
+    intro v hw ok tv nt ne
+    have viaP : dtype cfg sfh v = ptype cfg sfh v → Val.Structy cfg sfh v := fun he =>
+      Val.Structy.known v (by rw [he]; exact ptype_fam cfg sfh hl v ok tv nt)
+    cases ne with
+    | leaf _ hlf =>
+      apply viaP
+      apply dtype_eq_ptype_leaf
+      cases v <;> simp only [] at hlf ⊢
+    | sensitive x => exact viaP (by unfold dtype; rfl)
+    | array vs hall =>
+      simp only [Val.w] at hw
+      exact Val.Structy.array vs (fun x hx =>
+        ih x (by have := Val.w_lt_wl hx; omega) (ok.elems x hx) (tv.elems x hx) (nt.elems x hx) (hall x hx))
+    | hashAny es hany =>
+      apply viaP
+      cases es with
+      | nil => simp at hany
+      | cons e0 es0 => obtain ⟨k0, v0⟩ := e0; unfold dtype; simp [hany]
+    | hashStr es hkeys hvals =>
+      simp only [Val.w] at hw
+      exact Val.Structy.hash es ok.nodup hkeys (fun e he =>
+        ih e.2 (by have := Val.w_lt_we he; omega) (ok.vals e he) (tv.vals e he) (nt.vals e he) (hvals e he))
+
+end Pcore.Lat
